@@ -76,6 +76,17 @@ func main() {
 	if *tier == "thorough" {
 		cfgs = []load.Config{{}, {GOOS: "linux", GOARCH: "386"}, {GOOS: "darwin", GOARCH: "arm64"}, {GOOS: "windows", GOARCH: "amd64"}}
 	}
+	if only := os.Getenv("ERRLINT_ONLY_CONFIG"); only != "" {
+		// debugging aid: analyse one build configuration only (GOOS/GOARCH)
+		cfgs = nil
+		for _, one := range strings.Split(only, ",") {
+			if parts := strings.Split(one, "/"); len(parts) == 2 {
+				cfgs = append(cfgs, load.Config{GOOS: parts[0], GOARCH: parts[1]})
+			} else {
+				cfgs = append(cfgs, load.Config{})
+			}
+		}
+	}
 	res := &core.Result{Prop: *prop, Tier: *tier, Seed: seed, Start: start, Explain: pr.Explain, Trusted: pr.Trusted,
 		Assume: []string{
 			"go/types and go/ssa (x/tools v0.29.0) model the program faithfully; reflection is used by the module only for type names and comparability",
